@@ -26,6 +26,11 @@ _real_unlink = os.unlink
 _real_rename = os.rename
 _real_replace = os.replace
 _real_truncate = os.truncate
+_real_link = os.link
+_real_symlink = os.symlink
+_real_access = os.access
+_real_chmod = os.chmod
+_real_utime = os.utime
 
 _DISK = None  # the installed SimDisk (one per process)
 
@@ -328,6 +333,46 @@ def _sim_rename(src, dst, *a, **kw):
     _DISK.events.append((_DISK.seq, "rename", kd, 0, "", _DISK.actor, 0, 0))
 
 
+def _sim_link(src, dst, *a, **kw):
+    ks = _key(src) if _DISK is not None else None
+    kd = _key(dst) if _DISK is not None else None
+    if ks is None and kd is None:
+        return _real_link(src, dst, *a, **kw)
+    if ks is None or kd is None:
+        raise OSError(errno.EXDEV, "Invalid cross-device link")
+    if ks not in _DISK.files:
+        raise FileNotFoundError(errno.ENOENT, "No such file or directory", ks)
+    if kd in _DISK.files:
+        raise FileExistsError(errno.EEXIST, "File exists", kd)
+    _DISK.files[kd] = _DISK.files[ks]  # one inode, two names
+    _DISK.seq += 1
+    _DISK.events.append((_DISK.seq, "link", kd, 0, "", _DISK.actor, 0, 0))
+
+
+def _sim_symlink(src, dst, *a, **kw):
+    if _DISK is not None and (_key(src) or _key(dst)):
+        return _sim_link(src, dst)
+    return _real_symlink(src, dst, *a, **kw)
+
+
+def _noop_for_sim(real):
+    def f(path, *a, **kw):
+        k = _key(path) if _DISK is not None and not isinstance(path, int) else None
+        if k is None:
+            return real(path, *a, **kw)
+        if k not in _DISK.files:
+            raise FileNotFoundError(errno.ENOENT, "No such file or directory", k)
+        return None
+    return f
+
+
+def _sim_access(path, mode, *a, **kw):
+    k = _key(path) if _DISK is not None and not isinstance(path, int) else None
+    if k is None:
+        return _real_access(path, mode, *a, **kw)
+    return k in _DISK.files
+
+
 def _sim_truncate(path, length):
     k = _key(path) if _DISK is not None and not isinstance(path, int) else None
     if k is None:
@@ -353,6 +398,11 @@ def install(disk):
         os.rename = _sim_rename
         os.replace = _sim_rename
         os.truncate = _sim_truncate
+        os.link = _sim_link
+        os.symlink = _sim_symlink
+        os.access = _sim_access
+        os.chmod = _noop_for_sim(_real_chmod)
+        os.utime = _noop_for_sim(_real_utime)
 
 
 def uninstall():
@@ -367,3 +417,8 @@ def uninstall():
     os.rename = _real_rename
     os.replace = _real_replace
     os.truncate = _real_truncate
+    os.link = _real_link
+    os.symlink = _real_symlink
+    os.access = _real_access
+    os.chmod = _real_chmod
+    os.utime = _real_utime
